@@ -35,8 +35,8 @@ CONSTANTS
   Generic,      \* TRUE = FailoverOf[V]
   LogOn,        \* a Logger is configured (log call-outs exist)
   StatOn,       \* a StatsTracker is configured (stats call-outs exist)
-  InitBe,       \* [Keys -> entry | None]  prepared backend content
-  InitErrs,     \* [Keys -> entry | None]  prepared failure cache content
+  InitBeSet,    \* set of [Keys -> entry | None]: prepared backend contents to start from
+  InitErrsSet,  \* set of [Keys -> entry | None]: prepared failure cache contents to start from
   MaxFaults,    \* budget of injected backend faults
   MaxFails,     \* budget of failing builder invocations
   MaxNow,       \* bound of the tick counter
@@ -59,6 +59,7 @@ VARIABLES
   berrs,     \* ghost: [Keys -> set of errors produced by builder invocations]
   stored,    \* ghost: [Keys -> set of values ever stored in the backend under the key]
   writes,    \* ghost: sequence of backend writes [k, v, ttl, kind]
+  bsrc,      \* ghost: [Keys -> "init" | "build" | "refresh"] what wrote the current backend entry
   met,       \* metrics [build, failed, refreshed]
   gh,        \* ghost event counters [builds, fails, refreshes]
   faults,    \* injected backend faults so far
@@ -91,8 +92,8 @@ LocInit == [rd |-> [c |-> "none", v |-> NoVal, e |-> 0],  \* last backend read r
 
 Init ==
   /\ now = 0
-  /\ be = InitBe
-  /\ errs = InitErrs
+  /\ be \in InitBeSet
+  /\ errs \in InitErrsSet
   /\ locks = [k \in Keys |-> 0]
   /\ lrec = [i \in 1..N |-> [val |-> NoVal, err |-> NoVal, closed |-> FALSE]]
   /\ nlock = 0
@@ -102,9 +103,10 @@ Init ==
   /\ building = [k \in Keys |-> {}]
   /\ nb = [k \in Keys |-> 0]
   /\ produced = [k \in Keys |-> {}]
-  /\ berrs = [k \in Keys |-> {}]
-  /\ stored = [k \in Keys |-> IF InitBe[k] = None THEN {} ELSE {InitBe[k].v}]
+  /\ berrs = [k \in Keys |-> IF errs[k] = None THEN {} ELSE {errs[k].v}]
+  /\ stored = [k \in Keys |-> IF be[k] = None THEN {} ELSE {be[k].v}]
   /\ writes = <<>>
+  /\ bsrc = [k \in Keys |-> "init"]
   /\ met = [build |-> 0, failed |-> 0, refreshed |-> 0]
   /\ gh = [builds |-> 0, fails |-> 0, refreshes |-> 0]
   /\ faults = 0
@@ -157,7 +159,7 @@ Run(p, lr) == running' = IF RunToGate /\ ~Stops(p, pc'[p], lr) THEN p ELSE "none
 
 Return(p, v, e) == res' = [res EXCEPT ![p] = [done |-> TRUE, v |-> v, err |-> e]]
 
-UNCH_be    == UNCHANGED <<be, stored, writes>>
+UNCH_be    == UNCHANGED <<be, stored, writes, bsrc>>
 UNCH_lock  == UNCHANGED <<locks, lrec, nlock>>
 UNCH_build == UNCHANGED <<building, nb, produced, berrs, fails>>
 UNCH_met   == UNCHANGED <<met, gh>>
@@ -182,6 +184,7 @@ BeWrite(k, v, ttl, kind) ==
   /\ be' = [be EXCEPT ![k] = EntryFor(v, ttl, BeTTL)]
   /\ stored' = [stored EXCEPT ![k] = @ \cup {v}]
   /\ writes' = Append(writes, [k |-> k, v |-> v, ttl |-> ttl, kind |-> kind])
+  /\ bsrc' = [bsrc EXCEPT ![k] = kind]
 
 FailCached(k, skip) ==
   FailTTL > -1 /\ ~skip /\ errs[k] # None /\ errs[k].e > now
@@ -196,7 +199,7 @@ Start(p) ==
   /\ pc[p] = "idle"
   /\ Step(p, "Start", "", IF SyncRead THEN "elect" ELSE "preread")
   /\ Run(p, lrec)
-  /\ UNCHANGED <<now, be, errs, stored, writes, locks, lrec, nlock, loc, res, building, nb, produced, berrs,
+  /\ UNCHANGED <<now, be, errs, stored, writes, bsrc, locks, lrec, nlock, loc, res, building, nb, produced, berrs,
                  fails, met, gh, faults>>
 
 (* Initial check before the critical section (SyncRead off).                *)
@@ -210,7 +213,7 @@ PreRead(p, fault) ==
           ELSE Step(p, "PreRead", r.c, "elect") /\ UNCHANGED res
   /\ faults' = IF fault THEN faults + 1 ELSE faults
   /\ Run(p, lrec)
-  /\ UNCHANGED <<now, be, errs, stored, writes, locks, lrec, nlock, building, nb, produced, berrs, fails, met, gh>>
+  /\ UNCHANGED <<now, be, errs, stored, writes, bsrc, locks, lrec, nlock, building, nb, produced, berrs, fails, met, gh>>
 
 (* Lock the key for update or find the active lock (under Failover.lock).   *)
 Elect(p) ==
@@ -224,7 +227,7 @@ Elect(p) ==
             /\ Step(p, "Elect", "waiter", IF SyncRead THEN "syncread" ELSE "branch")
             /\ UNCHANGED <<nlock, locks>>
   /\ Run(p, lrec)
-  /\ UNCHANGED <<now, be, errs, stored, writes, lrec, res, building, nb, produced, berrs, fails, met, gh, faults>>
+  /\ UNCHANGED <<now, be, errs, stored, writes, bsrc, lrec, res, building, nb, produced, berrs, fails, met, gh, faults>>
 
 (* Check inside the critical section (SyncRead on).                         *)
 SyncReadStep(p, fault) ==
@@ -241,7 +244,7 @@ SyncReadStep(p, fault) ==
                     ELSE /\ Step(p, "SyncRead", r.c, "done") /\ UNCHANGED lrec
           ELSE Step(p, "SyncRead", r.c, "branch") /\ UNCHANGED <<res, lrec>>
   /\ Run(p, lrec')
-  /\ UNCHANGED <<now, be, errs, stored, writes, locks, nlock, building, nb, produced, berrs, fails, met, gh>>
+  /\ UNCHANGED <<now, be, errs, stored, writes, bsrc, locks, nlock, building, nb, produced, berrs, fails, met, gh>>
 
 (* After the read: waiter path or owner path.                               *)
 Branch(p) ==
@@ -272,13 +275,13 @@ Branch(p) ==
                      /\ Step(p, "Branch", "build", "failcheck")
                      /\ UNCHANGED <<res, lrec>>
   /\ Run(p, lrec')
-  /\ UNCHANGED <<now, be, errs, stored, writes, locks, nlock, building, nb, produced, berrs, fails, met, gh, faults>>
+  /\ UNCHANGED <<now, be, errs, stored, writes, bsrc, locks, nlock, building, nb, produced, berrs, fails, met, gh, faults>>
 
 WaitLog(p) ==
   /\ pc[p] = "waitlog"
   /\ Step(p, "WaitLog", "", "wait")
   /\ Run(p, lrec)
-  /\ UNCHANGED <<now, be, errs, stored, writes, locks, lrec, nlock, loc, res, building, nb, produced, berrs,
+  /\ UNCHANGED <<now, be, errs, stored, writes, bsrc, locks, lrec, nlock, loc, res, building, nb, produced, berrs,
                  fails, met, gh, faults>>
 
 (* <-keyLock.lock : enabled once the owner has closed the lock record.      *)
@@ -288,14 +291,14 @@ Wait(p) ==
   /\ Return(p, lrec[loc[p].lk].val, lrec[loc[p].lk].err)
   /\ Step(p, "Wake", "", "done")
   /\ Run(p, lrec)
-  /\ UNCHANGED <<now, be, errs, stored, writes, locks, lrec, nlock, loc, building, nb, produced, berrs,
+  /\ UNCHANGED <<now, be, errs, stored, writes, bsrc, locks, lrec, nlock, loc, building, nb, produced, berrs,
                  fails, met, gh, faults>>
 
 RefreshLog(p) ==
   /\ pc[p] = "refreshlog"
   /\ Step(p, "RefreshLog", "", "refreshstat")
   /\ Run(p, lrec)
-  /\ UNCHANGED <<now, be, errs, stored, writes, locks, lrec, nlock, loc, res, building, nb, produced, berrs,
+  /\ UNCHANGED <<now, be, errs, stored, writes, bsrc, locks, lrec, nlock, loc, res, building, nb, produced, berrs,
                  fails, met, gh, faults>>
 
 RefreshStat(p) ==
@@ -303,7 +306,7 @@ RefreshStat(p) ==
   /\ met' = [met EXCEPT !.refreshed = @ + 1]
   /\ Step(p, "RefreshStat", "", "refreshw")
   /\ Run(p, lrec)
-  /\ UNCHANGED <<now, be, errs, stored, writes, locks, lrec, nlock, loc, res, building, nb, produced, berrs,
+  /\ UNCHANGED <<now, be, errs, stored, writes, bsrc, locks, lrec, nlock, loc, res, building, nb, produced, berrs,
                  fails, gh, faults>>
 
 (* Re-store of the stale value with UpdateTTL through a FRESH TTL cell.     *)
@@ -334,7 +337,7 @@ FailCheck(p) ==
                     IF SyncUpdate \/ ~loc[p].hasStale THEN "buildlog" ELSE "spawn")
             /\ UNCHANGED <<res, lrec>>
   /\ Run(p, lrec')
-  /\ UNCHANGED <<now, be, errs, stored, writes, locks, nlock, loc, building, nb, produced, berrs, fails, met, gh, faults>>
+  /\ UNCHANGED <<now, be, errs, stored, writes, bsrc, locks, nlock, loc, building, nb, produced, berrs, fails, met, gh, faults>>
 
 (* Background update: Get returns the stale value, the build continues in   *)
 (* its own goroutine under a detached context with its own copy of the key. *)
@@ -344,13 +347,13 @@ Spawn(p) ==
   /\ loc' = [loc EXCEPT ![p].bg = TRUE]
   /\ Step(p, "Spawn", "", "buildlog")
   /\ Run(p, lrec)
-  /\ UNCHANGED <<now, be, errs, stored, writes, locks, lrec, nlock, building, nb, produced, berrs, fails, met, gh, faults>>
+  /\ UNCHANGED <<now, be, errs, stored, writes, bsrc, locks, lrec, nlock, building, nb, produced, berrs, fails, met, gh, faults>>
 
 BuildLog(p) ==
   /\ pc[p] = "buildlog"
   /\ Step(p, "BuildLog", "", "bstart")
   /\ Run(p, lrec)
-  /\ UNCHANGED <<now, be, errs, stored, writes, locks, lrec, nlock, loc, res, building, nb, produced, berrs,
+  /\ UNCHANGED <<now, be, errs, stored, writes, bsrc, locks, lrec, nlock, loc, res, building, nb, produced, berrs,
                  fails, met, gh, faults>>
 
 (* Builder entry.                                                           *)
@@ -362,7 +365,7 @@ BStart(p) ==
   /\ loc' = [loc EXCEPT ![p].bn = nb[K(p)] + 1]
   /\ Step(p, "BStart", Tok(K(p), nb[K(p)] + 1), "bend")
   /\ Run(p, lrec)
-  /\ UNCHANGED <<now, be, errs, stored, writes, locks, lrec, nlock, res, produced, berrs, fails, met, faults>>
+  /\ UNCHANGED <<now, be, errs, stored, writes, bsrc, locks, lrec, nlock, res, produced, berrs, fails, met, faults>>
 
 (* Builder exit with outcome ok / fail and an optional TTL hint.            *)
 BEnd(p, ok, t) ==
@@ -383,14 +386,14 @@ BEnd(p, ok, t) ==
             /\ StepA(p, "BEnd", "fail", t, "failstat")
             /\ UNCHANGED produced
   /\ Run(p, lrec)
-  /\ UNCHANGED <<now, be, errs, stored, writes, locks, lrec, nlock, res, nb, met, faults>>
+  /\ UNCHANGED <<now, be, errs, stored, writes, bsrc, locks, lrec, nlock, res, nb, met, faults>>
 
 FailStat(p) ==
   /\ pc[p] = "failstat"
   /\ met' = [met EXCEPT !.failed = @ + 1]
   /\ Step(p, "FailStat", "", "errwrite")
   /\ Run(p, lrec)
-  /\ UNCHANGED <<now, be, errs, stored, writes, locks, lrec, nlock, loc, res, building, nb, produced, berrs,
+  /\ UNCHANGED <<now, be, errs, stored, writes, bsrc, locks, lrec, nlock, loc, res, building, nb, produced, berrs,
                  fails, gh, faults>>
 
 (* The failure is cached with FailedUpdateTTL (repaired D13: not with the   *)
@@ -400,7 +403,7 @@ ErrWrite(p) ==
   /\ errs' = IF FailTTL > -1 THEN [errs EXCEPT ![K(p)] = EntryFor(loc[p].berr, 0, FailTTL)] ELSE errs
   /\ Step(p, "ErrWrite", "", "buildstat")
   /\ Run(p, lrec)
-  /\ UNCHANGED <<now, be, stored, writes, locks, lrec, nlock, loc, res, building, nb, produced, berrs,
+  /\ UNCHANGED <<now, be, stored, writes, bsrc, locks, lrec, nlock, loc, res, building, nb, produced, berrs,
                  fails, met, gh, faults>>
 
 (* Final store of the built value with the TTL of the caller's cell.        *)
@@ -423,7 +426,7 @@ BuildStat(p) ==
   /\ met' = [met EXCEPT !.build = @ + 1]
   /\ Step(p, "BuildStat", "", "publish")
   /\ Run(p, lrec)
-  /\ UNCHANGED <<now, be, errs, stored, writes, locks, lrec, nlock, loc, res, building, nb, produced, berrs,
+  /\ UNCHANGED <<now, be, errs, stored, writes, bsrc, locks, lrec, nlock, loc, res, building, nb, produced, berrs,
                  fails, gh, faults>>
 
 (* keyLock.val, keyLock.err = doBuild(...)                                  *)
@@ -432,14 +435,14 @@ Publish(p) ==
   /\ lrec' = [lrec EXCEPT ![loc[p].lk].val = loc[p].bv, ![loc[p].lk].err = loc[p].berr]
   /\ Step(p, "Publish", "", IF loc[p].berr # NoVal THEN "warnlog" ELSE "decide")
   /\ Run(p, lrec')
-  /\ UNCHANGED <<now, be, errs, stored, writes, locks, nlock, loc, res, building, nb, produced, berrs, fails,
+  /\ UNCHANGED <<now, be, errs, stored, writes, bsrc, locks, nlock, loc, res, building, nb, produced, berrs, fails,
                  met, gh, faults>>
 
 WarnLog(p) ==
   /\ pc[p] = "warnlog"
   /\ Step(p, "WarnLog", "", "decide")
   /\ Run(p, lrec)
-  /\ UNCHANGED <<now, be, errs, stored, writes, locks, lrec, nlock, loc, res, building, nb, produced, berrs,
+  /\ UNCHANGED <<now, be, errs, stored, writes, bsrc, locks, lrec, nlock, loc, res, building, nb, produced, berrs,
                  fails, met, gh, faults>>
 
 (* What the synchronous builder returns: the built value; on failure the    *)
@@ -455,7 +458,7 @@ Decide(p) ==
            ELSE Return(p, NoVal, loc[p].berr)
   /\ Step(p, "Decide", "", "release")
   /\ Run(p, lrec)
-  /\ UNCHANGED <<now, be, errs, stored, writes, locks, lrec, nlock, loc, building, nb, produced, berrs, fails,
+  /\ UNCHANGED <<now, be, errs, stored, writes, bsrc, locks, lrec, nlock, loc, building, nb, produced, berrs, fails,
                  met, gh, faults>>
 
 (* delete(keyLocks, key); close(keyLock.lock)  (under Failover.lock)        *)
@@ -465,7 +468,7 @@ Release(p) ==
   /\ lrec' = [lrec EXCEPT ![loc[p].lk].closed = TRUE]
   /\ Step(p, "Release", "", "done")
   /\ Run(p, lrec')
-  /\ UNCHANGED <<now, be, errs, stored, writes, nlock, loc, res, building, nb, produced, berrs, fails, met, gh, faults>>
+  /\ UNCHANGED <<now, be, errs, stored, writes, bsrc, nlock, loc, res, building, nb, produced, berrs, fails, met, gh, faults>>
 
 ---------------------------------------------------------------------------
 (* Environment                                                             *)
@@ -484,13 +487,13 @@ ExtExpireAll ==
   /\ EnvFrame /\ EnvOps
   /\ be' = [k \in Keys |-> IF be[k] = None THEN None ELSE [be[k] EXCEPT !.e = now]]
   /\ act' = [p |-> "", name |-> "ExtExpireAll", out |-> "", arg |-> 0]
-  /\ UNCHANGED <<now, stored, writes>>
+  /\ UNCHANGED <<now, stored, writes, bsrc>>
 
 ExtDelete(k) ==
   /\ EnvFrame /\ EnvOps /\ be[k] # None
   /\ be' = [be EXCEPT ![k] = None]
   /\ act' = [p |-> "", name |-> "ExtDelete", out |-> k, arg |-> 0]
-  /\ UNCHANGED <<now, stored, writes>>
+  /\ UNCHANGED <<now, stored, writes, bsrc>>
 
 ---------------------------------------------------------------------------
 ProcNext(p) ==
@@ -504,7 +507,7 @@ Next ==
   \/ \E p \in Procs : ProcNext(p) /\ UNCHANGED now
   \/ Tick \/ ExtExpireAll \/ \E k \in Keys : ExtDelete(k)
 
-vars == <<now, be, errs, locks, lrec, nlock, pc, loc, res, building, nb, produced, berrs, stored, writes, met, gh,
+vars == <<now, be, errs, locks, lrec, nlock, pc, loc, res, building, nb, produced, berrs, stored, writes, bsrc, met, gh,
           faults, fails, running, act>>
 
 Spec == Init /\ [][Next]_vars
@@ -536,7 +539,6 @@ Provenance ==
      IF res[p].err = NoVal
        THEN res[p].v \in produced[K(p)] \cup stored[K(p)]
        ELSE res[p].err \in berrs[K(p)] \cup BackendErrs
-              \cup {InitErrs[k].v : k \in {kk \in Keys : InitErrs[kk] # None /\ kk = K(p)}}
 
 (* C04 (safety part): when nobody is inside Get or a background build, no   *)
 (* key lock remains and nobody waits on an open lock record.                *)
@@ -552,7 +554,9 @@ WaiterHasOwner ==
 Termination == <>[]AllDone
 
 (* C05: with SyncRead no build starts while a fresh built value is stored.  *)
-FreshBuilt(k) == be[k] # None /\ be[k].e > now /\ be[k].v \in produced[k]
+(* "A build has succeeded and its result stays fresh": the backend entry was  *)
+(* written by a final store (not by the UpdateTTL re-store of a stale copy). *)
+FreshBuilt(k) == be[k] # None /\ be[k].e > now /\ bsrc[k] = "build"
 EconomySyncRead ==
   [][\A p \in Procs : SyncRead /\ ~Skip[p] /\ pc[p] = "bstart" /\ pc'[p] = "bend" => ~FreshBuilt(K(p))]_vars
 (* C05: no build starts while a failure is cached for the key (unless SkipRead). *)
